@@ -5,7 +5,7 @@
 EXTENDS Variants, Json, IOUtils, TLC
 Trace == ndJsonDeserialize(IOEnv.TRACE_FILE)
 Ok(b, name) == IF b THEN "ok" ELSE name
-Soft == {"ok", "collection-lift:sequential-shift"}
+Soft == {"ok", "collection-lift:sequential-shift", "alternative-sequence:minus-strand-chunk"}
 FirstBad(seq) == IF \E i \in DOMAIN seq : seq[i] \notin Soft
                  THEN seq[CHOOSE i \in DOMAIN seq : seq[i] \notin Soft /\ \A j \in 1..(i - 1) : seq[j] \in Soft]
                  ELSE IF \E i \in DOMAIN seq : seq[i] # "ok" THEN seq[CHOOSE i \in DOMAIN seq : seq[i] # "ok"] ELSE "ok"
@@ -16,6 +16,17 @@ VAlt(ev) ==
       chunk == SubSeq(R, ws + 1, we)
       Vc == [k \in DOMAIN V |-> <<V[k][1] - ws, V[k][2] - ws, V[k][3]>>] IN
   Ok(IsVal(o) /\ o[2] = Alt(chunk, Vc), "alternative-sequence")
+
+(* ["altm", R, V, ws, we, outcome chars] : the same question on a chunk that sits on the MINUS strand of the chromosome:
+   the edited window read in the chunk's orientation (reverse complement).  Keyed known finding: the library edits the
+   reverse-complemented chunk with the variants' plus-strand coordinates and bases. *)
+CmplN(c) == CASE c = "A" -> "T" [] c = "T" -> "A" [] c = "C" -> "G" [] c = "G" -> "C" [] OTHER -> c
+RevCmplN(sq) == [i \in 1..Len(sq) |-> CmplN(sq[Len(sq) + 1 - i])]
+VAltMinus(ev) ==
+  LET R == ev[2] V == ev[3] ws == ev[4] we == ev[5] o == ev[6]
+      chunk == SubSeq(R, ws + 1, we)
+      Vc == [k \in DOMAIN V |-> <<V[k][1] - ws, V[k][2] - ws, V[k][3]>>] IN
+  IF IsVal(o) /\ o[2] = RevCmplN(Alt(chunk, Vc)) THEN "ok" ELSE "alternative-sequence:minus-strand-chunk"
 
 (* ["lift", R, V, loc, isCollection, outcome <<"v", loc>>, spliced outcome <<"v", chars>> | <<"x", ...>>] *)
 VLiftRaw(ev) ==
@@ -87,7 +98,7 @@ VIncCdsRaw(ev) ==
   ELSE "ok"
 VIncCds(ev) == Keyed(VIncCdsRaw(ev), ev[6], ev[3], ev[7], ev[5])
 
-Verdict(ev) == CASE ev[1] = "inccds" -> VIncCds(ev) [] ev[1] = "alt" -> VAlt(ev) [] ev[1] = "lift" -> VLift(ev) [] ev[1] = "inc" -> VInc(ev)
+Verdict(ev) == CASE ev[1] = "inccds" -> VIncCds(ev) [] ev[1] = "alt" -> VAlt(ev) [] ev[1] = "altm" -> VAltMinus(ev) [] ev[1] = "lift" -> VLift(ev) [] ev[1] = "inc" -> VInc(ev)
                  [] ev[1] = "vcf" -> VVcf(ev) [] OTHER -> "unknown-op"
 Bad == {i \in DOMAIN Trace : Verdict(Trace[i]) # "ok"}
 ASSUME \A i \in Bad : PrintT(<<"BAD", i, Verdict(Trace[i])>>)
